@@ -332,6 +332,11 @@ theorem C10_scan_facts :
     Arc.Generated.C10.affectedScanCoversAllFiles = true ∧
     Arc.Generated.C10.confirmRescansStorage = true := by decide
 
+/-- **C10_where_verbatim.** The predicate the model evaluates is the predicate the client sent: in the
+current source the WHERE text reaches the scan, the count and the rewrite exactly as parsed from the
+request body (no string transformation between parse and use). -/
+theorem C10_where_verbatim : Arc.Generated.C10.whereTextVerbatim = true := by decide
+
 /-- **C10_dry_inert.** A dry run never changes the stored rows (any templates, any gates). -/
 theorem C10_dry_inert (kc kr : Keep) (ds : Dataset) (q : Req) (h : q.dry = true) :
     (handle kc kr ds q).1 = ds := by
